@@ -140,6 +140,15 @@ def build(seed):
         anc = f"anc{sx}"
         files[f"anc{sx}.f90"] = f"module {anc}\n{doc()}\ninterface\nmodule subroutine work()\nend subroutine\nend interface\nend module {anc}\n"
         files[f"sub{sx}.f90"] = f"submodule ({anc}) {modnames[0]}\n{doc()}\ncontains\nmodule procedure work\nend procedure\nend submodule {modnames[0]}\n"
+    # separate module procedures named like ordinary procedures elsewhere: interface bodies in a module, implementations in a submodule
+    if rng.random() < 0.5:
+        tags.add("separate_module_procedure_named_like_procedure_elsewhere")
+        anc, sm = f"smpanc{sx}", f"smpimp{sx}"
+        n1, n2 = rng.sample(shared, 2)
+        files[f"smp_a{sx}.f90"] = "\n".join([f"module {anc}", doc(), "implicit none", "interface", f"module subroutine {variants(rng, n1)}(x)", doc(), "integer, intent(in) :: x", "end subroutine",
+                                              f"module function {n2}(x) result(r)", doc(), "integer, intent(in) :: x", "integer :: r", "end function", "end interface", f"end module {anc}"]) + "\n"
+        files[f"smp_b{sx}.f90"] = "\n".join([f"submodule ({anc}) {sm}", doc(), "implicit none", "contains", f"module subroutine {n1}(x)", doc(), "integer, intent(in) :: x", f"end subroutine {n1}",
+                                              f"module procedure {n2}", doc(), "r = x", f"end procedure {n2}", f"end submodule {sm}"]) + "\n"
     # several unnamed / equally named programs and block data
     nprog = rng.choice([0, 1, 2, 3])
     for pi in range(nprog):
